@@ -1,6 +1,8 @@
 //@ target: src/view/flex.rs
 
 use crate::view::{BoxConstraint, ViewLayoutStore, ViewMutLayout, Layout};
+use crate::surface::Surface as _;
+use crate::render::Cell as KCell;
 
 // The modular View contract as a probe child: checks the constraint it is handed (min <= max) and answers with ANY
 // size inside it.
@@ -95,3 +97,70 @@ fn c10_flex_one_flex_child() {
     std::mem::forget(layout);
     std::mem::forget(store);
 }
+
+// ---------------------------------------------------------------- rendering: what the child is handed
+// The View contract on the rendering side: a child is rendered with the PARENT's area (it applies its own layout itself)
+// and with its OWN layout node. The recording child logs the shape of the surface and the layout it receives.
+static mut R_CALLS: usize = 0;
+static mut R_SHAPE: [usize; 6] = [0; 6];
+static mut R_POS: (usize, usize) = (0, 0);
+static mut R_SIZE: (usize, usize) = (0, 0);
+struct RecView;
+impl View for RecView {
+    fn render(&self, _ctx: &ViewContext, surf: TerminalSurface<'_>, layout: ViewLayout<'_>) -> Result<(), Error> {
+        unsafe {
+            R_CALLS += 1;
+            let s = surf.shape();
+            R_SHAPE = [s.start, s.end, s.width, s.height, s.row_stride, s.col_stride];
+            R_POS = (layout.position().row, layout.position().col);
+            R_SIZE = (layout.size().height, layout.size().width);
+        }
+        Ok(())
+    }
+    fn layout(&self, _ctx: &ViewContext, _ct: BoxConstraint, _layout: ViewMutLayout<'_>) -> Result<(), Error> { Ok(()) }
+}
+
+//# kind=bounded tier=quick props=C10 bound="flex with one child without a fill face, over a dense 6x8 surface (cells never touched, so no cell storage); every direction, every flex rectangle and every child rectangle" fns=flex_render | flex_render hands a non-empty child exactly the flex's own rectangle of the surface (Layout::apply_to of the flex layout, the child applies its own layout itself) together with the child's own layout node, once; an empty child is not rendered
+#[kani::proof]
+#[kani::unwind(4)]
+fn c10_flex_render_one_child() {
+    use crate::surface::{Shape, SurfaceMutView};
+    let ctx = ViewContext::dummy();
+    let (h, w): (usize, usize) = (6, 8);
+    let shape = Shape { start: 0, end: h * w, width: w, height: h, row_stride: w, col_stride: 1 };
+    let root = Layout::new()
+        .with_position(Position { row: kani::any(), col: kani::any() })
+        .with_size(Size { height: kani::any(), width: kani::any() });
+    let cpos = Position { row: kani::any(), col: kani::any() };
+    let csize = Size { height: kani::any(), width: kani::any() };
+    let mut e0: [KCell; 0] = [];
+    let mut e1: [KCell; 0] = [];
+    let expect = root.apply_to(SurfaceMutView::new(shape, &mut e0[..])).shape();
+    let mut store = ViewLayoutStore::new();
+    let mut layout = ViewMutLayout::new(&mut store, root);
+    {
+        let mut child = layout.push_default();
+        *child = Layout::new().with_position(cpos).with_size(csize);
+    }
+    let children: [FlexChild<RecView>; 1] = [FlexChild::new(RecView)];
+    let r = flex_render(any_axis(), children, &ctx, SurfaceMutView::new(shape, &mut e1[..]), layout.view());
+    assert!(r.is_ok());
+    unsafe {
+        if csize.height == 0 || csize.width == 0 {
+            assert!(R_CALLS == 0);
+        } else {
+            assert!(R_CALLS == 1);
+            assert!(R_SHAPE[0] == expect.start && R_SHAPE[1] == expect.end);
+            assert!(R_SHAPE[2] == expect.width && R_SHAPE[3] == expect.height);
+            assert!(R_SHAPE[4] == expect.row_stride && R_SHAPE[5] == expect.col_stride);
+            assert!(R_POS.0 == cpos.row && R_POS.1 == cpos.col && R_SIZE.0 == csize.height && R_SIZE.1 == csize.width);
+        }
+        kani::cover!(R_CALLS == 1 && expect.width > 0 && expect.height > 0);
+    }
+    std::mem::forget(r);
+    std::mem::forget(layout);
+    std::mem::forget(store);
+}
+
+// (a fill-face variant over real cells - the face applied to exactly the child's strip - was built and withdrawn: overwriting a
+//  Cell pulls in the drop glue of CellKind::Glyph -> rasterize::Scene, a recursive type CBMC unwinds without end; 300 s timeout)
